@@ -238,6 +238,34 @@ def r_reduce(fn, viewname):
     return r
 
 
+def r_repeat(x, a, k, pre, u):
+    rp, ax = a["repeats"], a["axis"]
+    if isinstance(rp, int):
+        r = render_scalar(rp, k.get("repeats", "int"))
+    else:
+        r = render_idx(rp, k.get("repeats", "arr"), "rp" + u, pre)
+    e = "nm::None" if ax is None else render_scalar(ax, k.get("axis", "int"))
+    if r is None or e is None:
+        return None, None, []
+    return "view::repeat(%s,%s,%s)" % (x[0], r, e), "na::repeat(%s,%s,%s)" % (x[0], r, e), _inc("repeat")
+
+
+def r_diagonal(x, a, k, pre, u):
+    sk = k.get("axis1", "int")
+    o, a1, a2 = render_scalar(a["offset"], sk), render_scalar(a["axis1"], sk), render_scalar(a["axis2"], sk)
+    if o is None or a1 is None or a2 is None:
+        return None, None, []
+    return "view::diagonal(%s,%s,%s,%s)" % (x[0], o, a1, a2), "na::diagonal(%s,%s,%s,%s)" % (x[0], o, a1, a2), _inc("diagonal")
+
+
+def r_swapaxes(x, a, k, pre, u):
+    sk = k.get("axis1", "int")
+    a1, a2 = render_scalar(a["axis1"], sk), render_scalar(a["axis2"], sk)
+    if a1 is None or a2 is None:
+        return None, None, []
+    return "view::swapaxes(%s,%s,%s)" % (x[0], a1, a2), "na::swapaxes(%s,%s,%s)" % (x[0], a1, a2), _inc("swapaxes")
+
+
 def r_matmul(x, a, k, pre, u):
     return "view::matmul(%s,%s)" % (x[0], x[1]), "na::matmul(%s,%s)" % (x[0], x[1]), _inc("matmul")
 
@@ -247,6 +275,7 @@ RENDER = {
     "flip": r_flip, "tile": r_tile, "broadcast_to": r_broadcast_to, "moveaxis": r_moveaxis,
     "add": _binary("add"), "multiply": _binary("multiply"), "subtract": _binary("subtract"), "maximum": _binary("maximum"),
     "concatenate": r_concatenate, "sum": r_reduce("sum", "sum"), "prod": r_reduce("prod", "prod"), "matmulv2": None,
+    "repeat": r_repeat, "diagonal": r_diagonal, "swapaxes": r_swapaxes,
 }
 
 
